@@ -65,8 +65,11 @@ std::vector<I> evals(Rng& rng)
     return v;
 }
 
+#if !defined(VH_ETABLE)
+#define VH_ETABLE "C05"
+#endif
 #define EHEAD(KIND, NAME) \
-    printf("C05 " KIND " " NAME " %d %s %d %s ", LD, tn<LN>().c_str(), RD, tn<RN>().c_str()); \
+    printf(VH_ETABLE " " KIND " " NAME " %d %s %d %s ", LD, tn<LN>().c_str(), RD, tn<RN>().c_str()); \
     pri(l); \
     putchar(' '); \
     pri(r); \
@@ -85,11 +88,13 @@ void bin(Rng& rng)
         for (I r : rv) {
             A a = _impl::from_rep<A>(AR(l));
             B b = _impl::from_rep<B>(BR(r));
+#if !defined(VH_CMP_ONLY)
             { EHEAD("bin", "add") VH_RUN(a + b, print_el) }
             { EHEAD("bin", "sub") VH_RUN(a - b, print_el) }
             { EHEAD("bin", "mul") VH_RUN(a * b, print_el) }
             { EHEAD("bin", "div") VH_RUN(a / b, print_el) }
             { EHEAD("bin", "mod") VH_RUN(a % b, print_el) }
+#endif
             { EHEAD("cmp", "lt") VH_RUN(a < b, print_tv) }
             { EHEAD("cmp", "le") VH_RUN(a <= b, print_tv) }
             { EHEAD("cmp", "gt") VH_RUN(a > b, print_tv) }
